@@ -283,4 +283,103 @@ theorem dequeueGo_ok {P : Params} (hP : P.ans = serialAns) (hc : CodecOk P.codec
         simp only [hmw', Bool.not_false, if_true]
         exact ⟨s1, g1, W1, rfl, h1, fr1, Or.inr hmw'⟩
 
+theorem not_mustWait_le {s : Proc} (h : mustWait s = false) : 1 ≤ s.backlog ∧ s.backlog ≤ 2 := by
+  unfold mustWait at h
+  by_cases h1 : s.backlog = 1
+  · omega
+  · by_cases h2 : s.backlog = 2
+    · omega
+    · simp [h1, h2] at h
+
+theorem PInv.items_le {P : Params} {s : Proc} {g : Ghost} {held : Nat} {W : WSt} (h : PInv P s g held W) :
+    g.items.length ≤ s.backlog := by
+  have := h.acct
+  unfold Acct at this
+  omega
+
+/-- `dequeue_block`, called with a non-empty backlog -/
+theorem dequeueBlock_ok {P : Params} (hP : P.ans = serialAns) (hc : CodecOk P.codec) (hB : P.B < 2 ^ 24)
+    {s : Proc} {g : Ghost} {W : WSt} (h : PInv P s g 0 W) (hb : 1 ≤ s.backlog) :
+    ∃ s' g' W', dequeueBlock P s = .ok s' ∧ PInv P s' g' 0 W' ∧ Frame s s' g g' ∧
+      (s'.backlog < s.backlog ∨ mustWait s' = false) := by
+  have hm : g.items.length + g.pend.length < 2 * s.backlog + 1 := by
+    have := h.items_le
+    have := h.measure_items
+    omega
+  exact dequeueGo_ok hP hc hB s.backlog hb _ s g W h hm
+
+/-- `get_new_block`: the backlog is drained below `max_backlog`, then one more block is accounted for -/
+theorem getNewBlockGo_ok {P : Params} (hP : P.ans = serialAns) (hc : CodecOk P.codec) (hB : P.B < 2 ^ 24) :
+    ∀ (fuel : Nat) (s : Proc) (g : Ghost) (W : WSt), PInv P s g 0 W → s.backlog < fuel →
+      ∃ s' g' W', getNewBlockGo P fuel s = .ok s' ∧ PInv P s' g' 1 W' ∧ Frame s s' g g' := by
+  intro fuel
+  induction fuel with
+  | zero => intro s g W _ hf; omega
+  | succ fuel ih =>
+    intro s g W h hf
+    unfold getNewBlockGo
+    by_cases hge : s.backlog ≥ s.maxBacklog
+    · rw [if_pos hge]
+      have hmb := h.back.maxBacklog
+      obtain ⟨s1, g1, W1, hd, h1, fr1, hpost⟩ := dequeueBlock_ok hP hc hB h (by omega)
+      rw [hd]
+      simp only
+      have hlt : s1.backlog < s.backlog := by
+        rcases hpost with hlt | hmw
+        · exact hlt
+        · have := (not_mustWait_le hmw).2; omega
+      obtain ⟨s', g', W', hg, h', fr'⟩ := ih s1 g1 W1 h1 (by omega)
+      exact ⟨s', g', W', hg, h', fr1.trans fr'⟩
+    · rw [if_neg hge]
+      refine ⟨_, g, W, rfl, ?_, ⟨rfl, rfl, rfl, rfl, rfl, rfl, id⟩⟩
+      refine PInv.intro (g.F P) rfl (h.back.backlogIrrel _) ?_ h.feInv h.finNoPend
+      have := h.acct
+      unfold Acct at *
+      simp only at this ⊢
+      omega
+
+theorem getNewBlock_ok {P : Params} (hP : P.ans = serialAns) (hc : CodecOk P.codec) (hB : P.B < 2 ^ 24)
+    {s : Proc} {g : Ghost} {W : WSt} (h : PInv P s g 0 W) :
+    ∃ s' g' W', getNewBlock P s = .ok s' ∧ PInv P s' g' 1 W' ∧ Frame s s' g g' :=
+  getNewBlockGo_ok hP hc hB _ s g W h (Nat.lt_succ_self _)
+
+/-- `sqfs_block_processor_sync` -/
+theorem syncGo_ok {P : Params} (hP : P.ans = serialAns) (hc : CodecOk P.codec) (hB : P.B < 2 ^ 24) :
+    ∀ (fuel : Nat) (s : Proc) (g : Ghost) (W : WSt), PInv P s g 0 W → s.backlog < fuel →
+      ∃ s' g' W', syncGo P fuel s = .ok s' ∧ PInv P s' g' 0 W' ∧ Frame s s' g g' ∧ (s'.backlog = 0 ∨ mustWait s' = false) := by
+  intro fuel
+  induction fuel with
+  | zero => intro s g W _ hf; omega
+  | succ fuel ih =>
+    intro s g W h hf
+    unfold syncGo
+    by_cases h0 : s.backlog = 0
+    · rw [if_pos h0]
+      exact ⟨s, g, W, rfl, h, Frame.refl s g, Or.inl h0⟩
+    · rw [if_neg h0]
+      by_cases hmw : mustWait s = true
+      · simp only [hmw, Bool.not_true, Bool.false_eq_true, if_false]
+        obtain ⟨s1, g1, W1, hd, h1, fr1, hpost⟩ := dequeueBlock_ok hP hc hB h (by omega)
+        rw [hd]
+        simp only
+        rcases hpost with hlt | hmw1
+        · obtain ⟨s', g', W', hg, h', fr', hp'⟩ := ih s1 g1 W1 h1 (by omega)
+          exact ⟨s', g', W', hg, h', fr1.trans fr', hp'⟩
+        · -- the early exit applies: the next iteration returns
+          have hfuel : 1 ≤ fuel := by omega
+          obtain ⟨f, rfl⟩ : ∃ f, fuel = f + 1 := ⟨fuel - 1, by omega⟩
+          have hb1 := (not_mustWait_le hmw1).1
+          refine ⟨s1, g1, W1, ?_, h1, fr1, Or.inr hmw1⟩
+          unfold syncGo
+          rw [if_neg (by omega)]
+          simp [hmw1]
+      · have hmw' : mustWait s = false := by simpa using hmw
+        simp only [hmw', Bool.not_false, if_true]
+        exact ⟨s, g, W, rfl, h, Frame.refl s g, Or.inr hmw'⟩
+
+theorem sync_ok {P : Params} (hP : P.ans = serialAns) (hc : CodecOk P.codec) (hB : P.B < 2 ^ 24)
+    {s : Proc} {g : Ghost} {W : WSt} (h : PInv P s g 0 W) :
+    ∃ s' g' W', sync P s = .ok s' ∧ PInv P s' g' 0 W' ∧ Frame s s' g g' ∧ (s'.backlog = 0 ∨ mustWait s' = false) :=
+  syncGo_ok hP hc hB _ s g W h (Nat.lt_succ_self _)
+
 end Sqfs.BlockProc
